@@ -73,7 +73,7 @@ func init() {
 		[]string{"df_records", "df_staged_flushes", "df_reopens", "df_end_within_8_of_boundary", "df_end_on_boundary", "df_multi_block_records", "df_start_offsets_hit", "df_identical_backend_files"},
 		"no schedule, clock or fault is involved: the simulator contributes the physical-size and written-bytes observation at the disk seam")
 	meta("C12", "fault_enumeration", "deterministic simulation with fault injection: a small database is built on the simulated disk and closed; stored bytes of its data and hint files are then altered on copies (all single-bit flips for small trees, seeded header-biased flips otherwise, overwrites, truncations, garbage blocks, whole records transplanted over records of the same length), for a third of the faults also on the files of the database while it is open (standard I/O); Open / Get / Fold / the sequential reader are judged",
-		NontrivialRuleText["C12"], 500, 2500,
+		NontrivialRuleText["C12"], 500, 2000,
 		[]string{"fault_damage_flip", "fault_damage_overwrite", "fault_damage_truncate", "fault_damage_garbage", "exhaustive_flip_runs", "damage_detected_at_open", "damage_harmless_or_detected", "damage_exposed_prefix_state", "fault_damage_transplant", "damage_live_images", "damage_live_detected"},
 		"a random overwrite that carries a valid CRC-32 by chance (2^-32) is ignored", "a zero-filled run that reaches the end of its block is indistinguishable from file pre-extension by design and is not injected", "damage to the lock file and the merge-finished marker is not injected (the property is about data and hint files)")
 	concTech := "deterministic simulation: 2..16 client tasks (real goroutines, exactly one runnable) interleaved by the seeded cooperative scheduler at every lock boundary and file call (random / sticky / PCT-style bounded-preemption policies); "
